@@ -16,6 +16,9 @@ class Abort(BaseException):
     """Unwinds a virtual thread when an execution is abandoned (pruned, deadlocked, finished exploring)."""
 
 
+MAX_EXPIRIES = 3
+
+
 class VT:
     """A virtual thread (also used for virtual processes)."""
 
@@ -119,7 +122,9 @@ class VQueue:
             # a timed wait: it may expire whenever the rest of the system is only waiting for its environment
             self.sched.op(('get-timed', self))
             if not self.items:
-                self.sched.current.observe('get-timeout', self.name)
+                me = self.sched.current
+                me.expiries = getattr(me, 'expiries', 0) + 1
+                me.observe('get-timeout', self.name)
                 raise __import__('queue').Empty()
         else:
             self.sched.op(('get', self))
@@ -270,6 +275,10 @@ class Sched:
         if k == 'get-timed':
             if len(op[1].items) > 0:
                 return True
+            # horizon: a polling loop may see its timed wait expire MAX_EXPIRIES times per thread; after that the wait only
+            # ends when an item arrives (otherwise a poll loop makes the execution space infinite)
+            if getattr(vt, 'expiries', 0) >= MAX_EXPIRIES:
+                return False
             # expiry: only when nothing but waits on the environment could run instead
             return not any(t is not vt and t.started and not t.finished and t.pending is not None and
                            t.pending[0] not in ('env-pull', 'get-timed') and self.enabled(t) for t in self.threads)
